@@ -43,8 +43,8 @@ LEVEL_NOTE = (
 
 def budget(tier):
     if tier == "quick":
-        return dict(max_examples=60, workers=6, time_s=170, min_cases=150)
-    return dict(max_examples=2000, workers=16, time_s=1200, min_cases=300)
+        return dict(max_examples=300, workers=8, time_s=170, min_cases=200)
+    return dict(max_examples=8000, workers=16, time_s=1200, min_cases=300)
 
 
 # ------------------------------------------------------------------ cases
@@ -102,7 +102,9 @@ def grid(tier):
 def _adaptive_case(draw, tier):
     npr = draw(st.sampled_from([0, 2, 3]))
     scr = draw(st.integers(0, 3)) == 0
-    dt_c = draw(gen.logu(-3, 0))
+    # mostly time steps near the stability scale; one case in five uses very small ones (times of order 1e-12..1e-6),
+    # where nothing may be confused with rounding: frame times are sums of the steps, whatever their size
+    dt_c = draw(gen.logu(-3, 0)) if draw(st.integers(0, 4)) else draw(gen.logu(-11, -5))
     dtmax_c = dt_c * draw(st.sampled_from([1.0, 3.0, 10.0, 100.0, 1e4]))
     adaptive = draw(st.integers(0, 4)) > 0
     nominal = draw(st.integers(3, 40 if tier == "quick" else 150))
